@@ -58,6 +58,13 @@ for p in props:
                  "(t) WHO CALLS - the operation is issued from a different thread than the one that created or last used the object (thread-local caches, thread ids captured at init, errno / last-error of the "
                  "wrong thread), or from inside an at-exit / clean-up path of another object.  Use two different letters for your two changes, state them in the README, and say why enumeration of all histories "
                  "of up to 6 operations on ONE object / all inputs of up to 5 symbols / 2-3 threads with 2 preemptions on ONE shared object would NOT find it.  ") % rnd
+    if rnd >= 8:
+        focus = ("ROUND %d FOCUS (this overrides the category list further down, and this round wants ONE change only: write it into directory 1 and leave directory 2 empty; be quick - build once, run the "
+                 "test suite once with the change).  Seven rounds have covered off-by-ones, reordered updates, refusal paths, second lives, rare entry points, two-thread orderings, wrong answers with intact "
+                 "invariants, build variants, far-away inputs, re-entrant callbacks, degenerate configurations, shared helpers, drift, two instances, life-cycle edges and who-calls.  Wanted now, pick one: "
+                 "(u) A FAULT AT ONE POINT - the allocator (or a write, or a clock read, or thread creation) fails at exactly the N-th call inside a multi-step operation, and the library either leaves the "
+                 "object half-updated or reports success / failure wrongly, although the same fault one call earlier or later is handled correctly; (v) TWO FEATURES TOGETHER - two options, modes or entry points "
+                 "of the mechanism that are each correct alone (and each tested alone) disagree when used on the same object in one history.  State the letter in the README.  ") % rnd
     t += EXTRA % dict(rnd=rnd, n=len(prev), prev="\n".join(prev), id=pid, commit=commit, focus=focus)
     open(out + "/PROMPT.txt", "w").write(t)
 print("ok")
